@@ -264,7 +264,7 @@ class Scenario:
 
 
 class Execution:
-    __slots__ = ('points', 'choices', 'labels', 'result', 'final', 'events', 'errors', 'steps', 'vtime', 'fps',
+    __slots__ = ('points', 'choices', 'labels', 'alts', 'result', 'final', 'events', 'errors', 'steps', 'vtime', 'fps',
                  'stage_states', 'stop_executing', 'comp_done', 'extra')
 
 
@@ -358,7 +358,7 @@ def execute(scn, choices, horizon=900.0, step_cap=30000, want_fps=True, main=Non
     base = '/dev/shm' if os.access('/dev/shm', os.W_OK) else None
     location = tempfile.mkdtemp(prefix='e1-', dir=base)
     x = Execution()
-    x.points, x.choices, x.labels, x.fps, x.extra = [], [], [], set(), {}
+    x.points, x.choices, x.labels, x.alts, x.fps, x.extra = [], [], [], [], set(), {}
     result = {}
     try:
         exp, controller = build_controller(scn, location)
@@ -413,6 +413,7 @@ def execute(scn, choices, horizon=900.0, step_cap=30000, want_fps=True, main=Non
                     c, i, len(alts), [alt_label(a) if a[0] != 'env' else a[1][0] for a in alts]))
             kind, obj = alts[c]
             x.points.append(len(alts))
+            x.alts.append([alt_label(a) if a[0] != 'env' else 'env:' + a[1][0] for a in alts])
             x.choices.append(c)
             x.labels.append(alt_label((kind, obj)) if kind != 'env' else 'env:' + obj[0])
             if want_fps:
